@@ -1547,6 +1547,9 @@ func (w *W) opRead() string {
 	if w.F.Prop == "C12" && w.Sep == "." && t.Chance(1, 8, "literal-key-probe") {
 		w.literalKeyProbe(h)
 	}
+	if (w.F.Prop == "C12" || w.F.Prop == "C15") && t.Chance(1, 8, "second-attachment-probe") {
+		w.aliasProbe(h)
+	}
 	root := w.rootOf(h)
 	var before uint64
 	if root != nil {
@@ -1622,6 +1625,69 @@ func (w *W) literalKeyProbe(h *Handle) {
 	if err != nil || !removed {
 		w.fail("op-result", "Remove", nil, "Remove(%q) without a path separator = %v, %v", literal, removed, err)
 	}
+}
+
+// aliasProbe: a config that is part of a tree is attached at a second place (SetChild with a
+// child handle: "the caller keeps a live handle"). A child config is a live view in both
+// directions: what is written through the handle is read at the second place, what is written there
+// is read through the handle. The second attachment and the two settings are removed again, so the
+// tree is as before. (What Path and Parent of such a config say is known finding O11, C15's
+// business; only values are observed here.)
+func (w *W) aliasProbe(h *Handle) {
+	if h.M.K != model.KSub || h.M.Parent == nil || !h.M.PureDict() {
+		return
+	}
+	var roots []*Handle
+	for _, r := range w.roots() {
+		if r.M.PureDict() {
+			roots = append(roots, r)
+		}
+	}
+	r := w.pick(roots, "second-parent")
+	if r == nil {
+		return
+	}
+	for _, k := range []string{"zzal", "zzw", "zzv"} {
+		if _, taken := r.M.D[k]; taken {
+			return
+		}
+		if _, taken := h.M.D[k]; taken {
+			return
+		}
+	}
+	var err error
+	w.R.MustComplete("SetChild", func() { err = r.C.SetChild("zzal", -1, h.C, w.Opts...) })
+	if err != nil {
+		w.fail("op-result", "SetChild", nil, "SetChild of a child handle at a second place (\"zzal\" of a root) failed: %v", err)
+		return
+	}
+	w.R.Probe("setchild: a config that is part of a tree is attached at a second place")
+	var got int64
+	var ch *ucfg.Config
+	w.R.MustComplete("SetInt", func() { err = h.C.SetInt("zzw", -1, 4242, w.Opts...) })
+	if err == nil {
+		w.R.MustComplete("Child", func() { ch, err = r.C.Child("zzal", -1, w.Opts...) })
+	}
+	if err == nil {
+		w.R.MustComplete("Int", func() { got, err = ch.Int("zzw", -1, w.Opts...) })
+	}
+	w.R.Tracef("h%d attached a second time as h%d.zzal; h%d.zzw := 4242; h%d.zzal.zzw = %d, %v", h.ID, r.ID, h.ID, r.ID, got, err)
+	if err != nil || got != 4242 {
+		w.fail("state", "SetChild", map[string]string{"alias": "true"}, "a config attached at a second place is no live view: written through the caller's handle (zzw = 4242), read at the second place: %d, %v", got, err)
+	} else {
+		w.R.MustComplete("SetInt", func() { err = ch.SetInt("zzv", -1, 4343, w.Opts...) })
+		if err == nil {
+			w.R.MustComplete("Int", func() { got, err = h.C.Int("zzv", -1, w.Opts...) })
+		}
+		if err != nil || got != 4343 {
+			w.fail("state", "SetChild", map[string]string{"alias": "true"}, "a config attached at a second place is no live view: written at the second place (zzv = 4343), read through the caller's handle: %d, %v", got, err)
+		}
+	}
+	// restore
+	w.R.MustComplete("Remove", func() { r.C.Remove("zzal", -1, w.Opts...) })
+	w.R.MustComplete("Remove", func() { h.C.Remove("zzw", -1, w.Opts...) })
+	w.R.MustComplete("Remove", func() { h.C.Remove("zzv", -1, w.Opts...) })
+	w.R.StateOps++
 }
 
 func (w *W) readAddr(h *Handle) {
